@@ -242,6 +242,92 @@ theorem pick_order_independent (p : Str → Bool) (o₁ o₂ : List Str) (hp : o
         | nil => rw [h2] at hl; simp at hl
         | cons b' r2' => rfl
 
+/-! ### the claim map as a whole: every lookup, the total and the threshold are the same for every order of its entries -/
+
+theorem alGet_perm {β} (l₁ l₂ : List (Nat × β)) (hp : l₁.Perm l₂) (hn : (l₁.map (·.1)).Nodup) (k : Nat) : alGet l₁ k = alGet l₂ k := by
+  induction hp with
+  | nil => rfl
+  | cons x _ ih =>
+    obtain ⟨a, b⟩ := x
+    simp only [List.map_cons, List.nodup_cons] at hn
+    simp only [alGet, ih hn.2]
+  | swap x y l =>
+    obtain ⟨a, b⟩ := x
+    obtain ⟨c, d⟩ := y
+    simp only [List.map_cons, List.nodup_cons, List.mem_cons, not_or] at hn
+    simp only [alGet]
+    by_cases h1 : c = k <;> by_cases h2 : a = k <;> simp only [h1, h2, if_true, if_false]
+    exact absurd (h1.trans h2.symm) hn.1.1
+  | trans p1 _ ih1 ih2 =>
+    rw [ih1 hn]
+    exact ih2 ((p1.map _).nodup_iff.mp hn)
+
+theorem filterMap_keys_nodup (f : Nat → Option (Nat × Nat)) (hf : ∀ j p, f j = some p → p.1 = j) (l : List Nat) (hl : l.Nodup) :
+    ((l.filterMap f).map (·.1)).Nodup := by
+  induction l with
+  | nil => simp
+  | cons i r ih =>
+    simp only [List.nodup_cons] at hl
+    have hsub : ∀ x ∈ (r.filterMap f).map (·.1), x ∈ r := by
+      intro x hx
+      obtain ⟨p, hp, rfl⟩ := List.mem_map.mp hx
+      obtain ⟨j, hj, hjp⟩ := List.mem_filterMap.mp hp
+      rw [hf j p hjp]; exact hj
+    simp only [List.filterMap_cons]
+    cases hfi : f i with
+    | none => exact ih hl.2
+    | some p =>
+      simp only [List.map_cons, List.nodup_cons, hf i p hfi]
+      exact ⟨fun hin => hl.1 (hsub i hin), ih hl.2⟩
+
+/-- the claim map has one entry per validator index -/
+theorem claims_keys_nodup (s : State) : ((claims s).map (·.1)).Nodup := by
+  unfold claims
+  apply filterMap_keys_nodup _ _ _ List.nodup_range
+  intro j p hjp
+  split at hjp
+  · split at hjp
+    · cases hjp; rfl
+    · cases hjp
+  · cases hjp
+
+/-- **weights, total power and threshold do not depend on the order of the claim map** -/
+theorem claim_map_order_independent (cl₁ cl₂ : List (Nat × Nat)) (hp : cl₁.Perm cl₂) (hn : (cl₁.map (·.1)).Nodup) (thr : Nat) :
+    (∀ i, weightOfVoter cl₁ i = weightOfVoter cl₂ i) ∧ (∀ i, alHas cl₁ i = alHas cl₂ i) ∧ totalPower cl₁ = totalPower cl₂ ∧
+    thresholdVotes thr (totalPower cl₁) = thresholdVotes thr (totalPower cl₂) := by
+  have ht := reward_weight_sum_order_independent cl₁ cl₂ hp
+  refine ⟨fun i => ?_, fun i => ?_, ht, by rw [ht]⟩
+  · unfold weightOfVoter; rw [alGet_perm cl₁ cl₂ hp hn i]
+  · unfold alHas; rw [alGet_perm cl₁ cl₂ hp hn i]
+
+/-- **the whole tally - accepted owner of every NFT and the set of validators charged a miss - is the same whichever way the claim map
+and the grouped votes are walked** -/
+theorem tally_order_independent (cl₁ cl₂ : List (Nat × Nat)) (hp : cl₁.Perm cl₂) (hn : (cl₁.map (·.1)).Nodup) (bs : List Ballot) (thr : Nat)
+    (s₁ s₂ : List Nft) (hs : s₁.Perm s₂) :
+    (∀ n, alGet (s₁.filterMap (acceptedEntry cl₁ bs thr)) n = alGet (s₂.filterMap (acceptedEntry cl₂ bs thr)) n) ∧
+    (∀ acc i, missed cl₁ bs acc i = missed cl₂ bs acc i) := by
+  obtain ⟨hw, hh, _, _⟩ := claim_map_order_independent cl₁ cl₂ hp hn thr
+  have hpow : ∀ n o, powerFor cl₁ bs n o = powerFor cl₂ bs n o := by
+    intro n o
+    unfold powerFor
+    congr 1
+    apply List.map_congr_left
+    intro b _
+    exact hw b.voter
+  have hpick : ∀ n, pickOwner cl₁ bs thr n = pickOwner cl₂ bs thr n := by
+    intro n
+    unfold pickOwner
+    have : (fun o => decide (powerFor cl₁ bs n o ≥ thr)) = (fun o => decide (powerFor cl₂ bs n o ≥ thr)) := by
+      funext o; rw [hpow n o]
+    rw [this]
+  constructor
+  · intro n
+    rw [alGet_accepted, alGet_accepted, hpick n]
+    simp only [hs.mem_iff]
+  · intro acc i
+    unfold missed
+    rw [hh i]
+
 /-! ### the published NFT list is a function of the store -/
 
 /-- the list of NFTs to verify is computed from the ordered store walk alone (no map): two states with the same settlement store
